@@ -244,6 +244,7 @@ func (ex *Exec) evalPredLit(lit *ast.FuncLit, args []*T, typs []types.Type) *T {
 	for _, fld := range lit.Type.Params.List {
 		for _, n := range fld.Names {
 			if obj, ok := ex.info().Defs[n].(*types.Var); ok && i < len(args) {
+				ex.noSR[obj] = true
 				ex.st.env[ex.keyOf(obj)] = args[i]
 			}
 			i++
